@@ -1159,20 +1159,24 @@ def t_cat(ts, dim=0):
 
 
 def t_cat_plist(pl, dim):
-    if dim != 0 or not all(is_conc(t.shape[0]) and t.shape[0] == 1 for t in pl.base):
+    if dim != 0 or not all(is_conc(t.shape[0]) for t in pl.base):
         raise Unsupported('cat of periodic list along dim != 0')
-    k = len(pl.base)
+    sizes = [t.shape[0] for t in pl.base]
+    P = sum(sizes)
     shape = list(pl.base[0].shape)
-    shape[0] = simp(k * I(pl.count))
+    shape[0] = simp(P * I(pl.count))
     snaps = [t.snap() for t in pl.base]
 
     def elem(idx):
         out = ZERO
-        for r, sn in enumerate(snaps):
-            g = simp(I(idx[0]) % k == r) if k > 1 else True
-            if g is False:
-                continue
-            out = out + sn([0] + list(idx[1:])).guard(g)
+        r = simp(I(idx[0]) % P) if P > 1 else 0
+        off = 0
+        for sz, sn in zip(sizes, snaps):
+            for j in range(sz):
+                g = simp(I(r) == off + j) if P > 1 else True
+                if g is not False:
+                    out = out + sn([j] + list(idx[1:])).guard(g)
+            off += sz
         return out
     return fresh_like(shape, elem, *pl.base)
 
